@@ -84,7 +84,8 @@ int main(int argc, char** argv) {
     else if (sym == "masa_sanity_check") s = in_child([&] {
       capture([] { masa_init<double>("a", "euler_1d"); }); double r0 = 0, r1 = 0; int c0 = 0, c1 = 0;
       capture([&] { r0 = f(0, 0, 0, 0, 0); c0 = masa_sanity_check<double>(); masa_purge_default_param<double>(); r1 = f(0, 0, 0, 0, 0); c1 = masa_sanity_check<double>(); });
-      st += 2; calls += 4; valid += 2; if (abi[0] == 'i' && ((int)r0 != c0 || (int)r1 != c1)) viol("masa_sanity_check through its Fortran prototype returns a status different from the C++ call", sym); });
+      st += 2; calls += 4; valid += 3; if (abi[0] == 'i' && ((int)r0 != c0 || (int)r1 != c1)) viol("masa_sanity_check through its Fortran prototype returns a status different from the C++ call", sym);
+      if (c0 != 0 || c1 == 0 || masa_get_param<double>("u_0") != -12345.67) viol("masa_sanity_check through its Fortran prototype changed the parameters it is supposed to inspect (purged state not preserved)", sym); });
     else if (sym == "masa_init_param") s = in_child([&] {
       capture([] { masa_init<double>("a", "euler_1d"); }); double d0 = masa_get_param<double>("u_0"); masa_set_param<double>("u_0", 9.25); capture([&] { f(0, 0, 0, 0, 0); });
       st++; calls++; valid++; if (masa_get_param<double>("u_0") != d0) viol("masa_init_param through its Fortran prototype did not restore defaults", sym); });
